@@ -16,6 +16,12 @@ import sys
 import tempfile
 import time
 
+# Every process that links the cosmos keyring (our harness, the repository's own tests) probes the D-Bus session bus
+# in a package init(); with no address set, godbus runs `dbus-launch`, which forks a dbus-daemon that is never
+# reaped -- one leaked process per harness run (pid_max is 32768 here). Point the probe at nothing instead.
+os.environ.setdefault("DBUS_SESSION_BUS_ADDRESS", "unix:path=/nonexistent/verif-no-dbus")
+os.environ.setdefault("DISABLE_KWALLET", "1")
+
 ROOT = os.path.dirname(os.path.dirname(os.path.abspath(__file__)))
 REPO = os.environ.get("VERIF_REPO", "/repo")
 SPEC = os.path.join(ROOT, "spec")
